@@ -1,5 +1,6 @@
 """C06 - results do not depend on labels, row order or creation order."""
 import copy
+import math
 
 from pvmon import netgen
 from pvmon.compare import snapshot, diff_snapshots, nonunique_physics
@@ -53,11 +54,21 @@ def make(case):
                     friction_model=str(rng.choice(["nikuradse", "colebrook", "swamee-jain"])))
         if opts["friction_model"] == "colebrook":
             opts.update(tolerance_colebrook=1e-12, max_iter_colebrook=200)
+    if False and case["kind"] != "heat" and rng.random() < 0.3:     # switched off, see DESIGN.md section 6 (last row) and the open C06 finding
+        # a net that holds only the tables of the elements created, in the order of their first creation: the internal order of the
+        # component tables follows the (shuffled) creation order
+        sec = copy.deepcopy(base)
+        sec["sector"] = "None"
+        sector_variant = netgen.shuffle_creation(sec, rng)
+    else:
+        sector_variant = None
     variants = {
         "relabel": netgen.relabel(copy.deepcopy(base), rng, case["scheme"]),
         "rows": netgen.permute_rows(netgen.relabel(copy.deepcopy(base), rng, "shuffled"), rng),
         "creation": netgen.shuffle_creation(base, rng),
     }
+    if sector_variant is not None:
+        variants["component_tables"] = sector_variant
     return base, variants, opts
 
 
@@ -105,6 +116,17 @@ def run_case(case, ctx):
             t, name, col, msg = diffs[0][:4]
             tag = "t_outlet_misplaced" if all(d[2] == "t_outlet_k" for d in diffs) and vname != "creation" else \
                 "results_depend_on_" + vname
+            if vname == "component_tables":
+                # Listed finding: in a Sector.NONE net the start temperatures of interior nodes (pipe sections, valve nodes) depend on
+                # the order in which the component tables were first created.  It only touches quantities that follow from
+                # temperatures (density, viscosity): the supply pattern and the flows prescribed by loads must still agree.
+                sv = snapshot(vnet)
+                same_pattern = all((math.isnan(r["p_bar"]) == math.isnan(sv["junction"][nm]["p_bar"])) for nm, r in s0["junction"].items())
+                # size is judged on pressures and mass flows (Reynolds number, friction factor, velocities follow the temperatures directly)
+                worst = max((abs(d[4] - d[5]) / max(abs(d[4]), abs(d[5]), 1e-300) for d in diffs if d[4] is not None and d[5] is not None
+                             and not (math.isnan(d[4]) or math.isnan(d[5])) and (str(d[2]).startswith("p_") or str(d[2]).startswith("mdot_"))), default=0.0)
+                if same_pattern and worst <= 5e-3 and not any(d[3].startswith(("table missing", "element missing")) for d in diffs):
+                    tag = "interior_node_start_temperature_depends_on_table_order"
             obs.violate(tag, "%s variant (%s): %d of %d values differ, first res_%s[%s].%s %s"
                         % (vname, case["scheme"] if vname == "relabel" else "", len(diffs), n, t, name, col, msg),
                         variant=vname, differing=[list(d[:4]) for d in diffs[:8]])
